@@ -1295,9 +1295,21 @@ class PyCdlib:
 
         old = self._cdfp.tell()
         self._seek_to_extent(eltorito_boot_catalog_extent)
-        data = self._cdfp.read(32)
-        while not self.eltorito_boot_catalog.parse(data):
-            data = self._cdfp.read(32)
+        # The catalog normally ends with an empty entry.  One that fills its
+        # sector completely has no room for that; it then ends with the sector,
+        # unless the last Section Header still announces entries.
+        catalog = self.eltorito_boot_catalog
+        entries_in_sector = self.logical_block_size // 32
+        num_read = 0
+        done = False
+        while not done:
+            waiting = bool(catalog.sections) and len(catalog.sections[-1].section_entries) < catalog.sections[-1].num_section_entries
+            if num_read == entries_in_sector and not waiting:
+                data = b'\x00' * 32
+            else:
+                data = self._cdfp.read(32)
+                num_read += 1
+            done = catalog.parse(data)
         self._cdfp.seek(old)
 
     def _udf_assign_extents(self, udf_files, current_extent):
